@@ -518,6 +518,12 @@ def _padform(t):
     return (top, r, b, l)
 
 
+def _sty(t, *names):
+    """optional style options (strings, as a user writes them) - set by C14's stress only; they never change a layout"""
+    st = t.get("sty") or {}
+    return {n: st[n] for n in names if n in st}
+
+
 def build(t, env, reg=None, path=()):
     """abstract tree -> real renderable; reg: id(object) -> [paths]"""
     k = t["k"]
@@ -532,11 +538,13 @@ def build(t, env, reg=None, path=()):
     elif k == "panel":
         obj = env.Panel(build(t["c"], env, reg, path + ("c",)), getattr(env.rbox, t.get("box", "ROUNDED")),
                         title=text_of(t, "ts", "title") or None, title_align=t.get("ta", "center"),
-                        expand=t["ex"], width=t["w"] or None, padding=(t.get("pt", 0), t["pr"], t.get("pb", 0), t["pl"]))
+                        expand=t["ex"], width=t["w"] or None, padding=(t.get("pt", 0), t["pr"], t.get("pb", 0), t["pl"]),
+                        **_sty(t, "style", "border_style"))
     elif k == "padding":
-        obj = env.Padding(build(t["c"], env, reg, path + ("c",)), _padform(t), expand=t["ex"])
+        obj = env.Padding(build(t["c"], env, reg, path + ("c",)), _padform(t), expand=t["ex"], **_sty(t, "style"))
     elif k == "align":
-        obj = env.Align(build(t["c"], env, reg, path + ("c",)), t.get("al", "center"), pad=t.get("pad", True), width=t["w"] or None)
+        obj = env.Align(build(t["c"], env, reg, path + ("c",)), t.get("al", "center"), pad=t.get("pad", True), width=t["w"] or None,
+                        **_sty(t, "style"))
     elif k == "constrain":
         obj = env.Constrain(build(t["c"], env, reg, path + ("c",)), t["w"] or None)
     elif k == "styled":
@@ -553,15 +561,16 @@ def build(t, env, reg=None, path=()):
                         box=None if t["box"] == "none" else getattr(env.rbox, t["box"]),
                         padding=(t.get("pt", 0), t["pr"], t.get("pb", 0), t["pl"]), collapse_padding=t["cp"], pad_edge=t["pe"],
                         expand=t.get("ex", False), show_header=t["sh"], show_footer=t["sf"], show_edge=t["edge"],
-                        show_lines=t.get("lines", False), leading=t.get("leading", 0), title_justify=t.get("tj", "center"))
+                        show_lines=t.get("lines", False), leading=t.get("leading", 0), title_justify=t.get("tj", "center"),
+                        **_sty(t, "style", "border_style", "header_style", "footer_style", "title_style", "caption_style", "row_styles"))
         for j, col in enumerate(t["cols"]):
             obj.add_column(build(col["hdr"], env, reg, path + ("cols", j, "hdr")), build(col["ftr"], env, reg, path + ("cols", j, "ftr")),
                            justify=col.get("jus", "left"), overflow=col.get("ov", "ellipsis"), width=col["w"] or None,
                            min_width=col["minw"] or None, max_width=col["maxw"] or None, ratio=0 if col.get("rz") else (col["ratio"] or None),
-                           no_wrap=col["nw"])
+                           no_wrap=col["nw"], **_sty(col, "style", "header_style", "footer_style"))
         for i, row in enumerate(t["rows"]):
             obj.add_row(*[build(c, env, reg, path + ("rows", i, j)) for j, c in enumerate(row)],
-                        end_section=bool(t.get("endsec")) and i == 0)
+                        end_section=bool(t.get("endsec")) and i == 0, style=(t.get("sty") or {}).get("rows", {}).get(str(i)))
     elif k == "columns":
         obj = env.Columns([build(c, env, reg, path + ("ch", i)) for i, c in enumerate(t["ch"])],
                           padding=(t.get("pt", 0), t.get("pr", 1), t.get("pb", 0), t.get("pl", 1)), width=t["w"] or None,
@@ -580,7 +589,7 @@ def build(t, env, reg=None, path=()):
             return node
         obj = mk(t, path, None)
     elif k == "rule":
-        obj = env.Rule(text_of(t, "ts", "title"), characters=text_of(t, "chs", "chars") or "\u2500", align=t.get("al", "center"))
+        obj = env.Rule(text_of(t, "ts", "title"), characters=text_of(t, "chs", "chars") or "\u2500", align=t.get("al", "center"), **_sty(t, "style"))
     elif k == "bar":
         obj = env.Bar(t.get("size", 100), t.get("begin", 10), t.get("end", 60), width=t.get("w") or None)
     elif k == "progressbar":
